@@ -105,9 +105,10 @@ def prepare(verbose=True):
         # 5. extraction + modelrun
         mr = os.path.join(BUILD, "modelrun")
         ext_dir = os.path.join(COQ, "Extract")
-        need_vo = [os.path.join(COQ, p) for p in ("Model/State.vo", "Model/Model.vo", "Spec/Bip39Spec.vo", "Spec/ReaderSpec.vo")
-                   if os.path.exists(os.path.join(COQ, p[:-1]))]
-        model_ok = all(os.path.exists(v) for v in need_vo)
+        # everything Extract.v can depend on: the libraries, the specification, the model and the GENERATED files
+        must = [os.path.join(COQ, p) for p in ("Model/State.vo", "Model/Model.vo", "Model/ToolModel.vo", "Spec/Bip39Spec.vo")]
+        model_ok = all(os.path.exists(v) for v in must)
+        need_vo = [v for d in ("Lib", "Spec", "Gen", "Model") for v in tree_files(os.path.join(COQ, d), (".vo",))]
         if model_ok and newer(need_vo + [os.path.join(ext_dir, "Extract.v"), os.path.join(ext_dir, "driver.ml")], mr):
             rc, out = sh(["coqc", "-Q", COQ, "B39", "-w", "-extraction-opaque-accessed,-extraction-reserved-identifier", "Extract.v"], cwd=ext_dir, timeout=900)
             if rc != 0:
